@@ -67,15 +67,17 @@ def c03(scn, x):
         # the configuration pre-step of an object creation is one attempt of that creation
         ident = ("creation-attempt " + e["object_root"].split("-")[0]) if pre else e["ident"]
         per[(ident, scope_key(e))].append(e)
+    escapes = _escape_executions(scn, x)
     for (ident, sk), evs in per.items():
         budget = budget_of(evs[0], scn)
-        if len(evs) > budget:
+        counted = [e for e in evs if e["seq"] not in escapes]
+        if len(counted) > budget:
             creation = bool(evs[0].get("object_root"))
-            out.append({"what": f"{short(ident)} executed {len(evs)} times in scope {sk} with budget {budget} "
-                                f"(workers {[e['w'] for e in evs][:12]} at t={[e['t'] for e in evs][:12]})",
+            out.append({"what": f"{short(ident)} executed {len(counted)} times in scope {sk} with budget {budget} "
+                                f"(workers {[e['w'] for e in counted][:12]} at t={[e['t'] for e in counted][:12]})",
                         "signature": {"clause": "budget", "retries": budget > 1,
                                       "kind": "creation-attempt" if ident.startswith("creation-attempt") else ("install" if creation else "test"),
-                                      "excess_within_workers": ident.startswith("creation-attempt") or len(evs) - budget <= nworkers - 1}})
+                                      "excess_within_workers": ident.startswith("creation-attempt") or len(counted) - budget <= nworkers - 1}})
     # a setup test whose states were all found when first examined is not executed in that scope
     first_check = {}
     removed_since = collections.defaultdict(bool)
@@ -95,6 +97,41 @@ def c03(scn, x):
                 out.append({"what": f"{short(e['ident'])} executed by {e['w']} although all its states were found at its first "
                                     f"examination in scope {key[1]} (t={fc['t']} by {fc['w']})",
                             "signature": {"clause": "found-but-executed", "test": short(e["ident"])}})
+    return out
+
+
+def _escape_executions(scn, x):
+    """Executions that only exist because another worker's execution of the same test (or object creation) overran the timeout budget:
+    the code documents re-entrancy after `occupied_wait > test_timeout*max_tries` as its recovery from a hanging test; the statements
+    speak about tests that stay within their timeout.  Returns the seq numbers of such executions (by OTHER workers, started while the
+    overrunning execution was still in progress)."""
+    timeout_periods = float(scn.params.get("test_timeout", 3600)) * float(scn.params.get("max_tries", 1) or 1) / 0.1
+    poll_periods = 10 * 30 / 0.1
+    st = {e["seq"]: e for e in x.trace if e["k"] == "start"}
+    intervals = []  # (key, scope, worker, start, extended end)
+    copen = {}
+    for e in x.trace:
+        if e["k"] == "start" and e.get("object_root") and e["type"] == "shared_configure_install":
+            copen[(e["w"], e["object_root"])] = e["t"]
+        elif e["k"] == "end":
+            s0 = st[e["seq"]]
+            ext = e["t"] + (poll_periods if e["status"] == "NORESULT" else 0)
+            if s0.get("object_root"):
+                begin = copen.get((s0["w"], s0["object_root"]), s0["t"])
+                key = ("create", s0["object_root"])
+            else:
+                begin = s0["t"]
+                key = ("test", s0["ident"])
+            if ext - begin > timeout_periods + 1e-9:
+                intervals.append((key, scope_key(s0), s0["w"], begin, ext))
+    out = set()
+    for e in x.trace:
+        if e["k"] != "start":
+            continue
+        key = ("create", e["object_root"]) if e.get("object_root") else ("test", e["ident"])
+        for (k2, sc, w, begin, ext) in intervals:
+            if k2 == key and sc == scope_key(e) and w != e["w"] and begin + timeout_periods < e["t"] <= ext + 1e-9:
+                out.add(e["seq"])
     return out
 
 
